@@ -1,5 +1,10 @@
 #!/usr/bin/env python3-vt
 import sys, os
 sys.path.insert(0, os.path.dirname(os.path.abspath(__file__)))
-import simcheck
+sys.path.insert(0, os.path.join(os.path.dirname(os.path.abspath(__file__)), '..', 'lib'))
+import simcheck, simfam
+from checklib import Family
+# long histories: the recorded series crosses the doubling of its arrays (1024 samples); durations must survive
+simfam.FAMILIES['C14'] = simfam.FAMILIES['C14'] + [
+    Family('history-array-growth', 'h_c18.c', 'h_growth', ['N=1'], opts={'time_limit': 200}, weight=3, validate=2)]
 simcheck.run('C14')
